@@ -284,6 +284,15 @@ trait MonoX: Mono + Clone + Send + Sync + 'static {
         true
     }
     fn deg_exps(d: &<Self as Mono>::Deg) -> Exp;
+    /// `total_deg()` where the kind has one
+    fn total_deg_i64(&self) -> Option<i64> {
+        None
+    }
+    /// observers of the multi-degree (`ninds`, `indices`, `min_index`, `max_index`, `total`, `all_leq`,
+    /// `all_geq`) on the pair (a, b) against the exponent vectors; Some(defect) on a disagreement
+    fn mdeg_defect(_a: &Self, _ea: &Exp, _b: &Self, _eb: &Exp) -> Option<String> {
+        None
+    }
 }
 
 macro_rules! monox_var {
@@ -316,6 +325,9 @@ macro_rules! monox_var {
             fn deg_exps(d: &($i, $i)) -> Exp {
                 vec![d.0 as i64, d.1 as i64]
             }
+            fn total_deg_i64(&self) -> Option<i64> {
+                Some(self.total_deg() as i64)
+            }
         }
         impl MonoX for Var3<'x', 'y', 'z', $i> {
             const NV: usize = 3;
@@ -330,6 +342,9 @@ macro_rules! monox_var {
             }
             fn deg_exps(d: &($i, $i, $i)) -> Exp {
                 vec![d.0 as i64, d.1 as i64, d.2 as i64]
+            }
+            fn total_deg_i64(&self) -> Option<i64> {
+                Some(self.total_deg() as i64)
             }
         }
         impl MonoX for MultiVar<'x', $i> {
@@ -347,6 +362,30 @@ macro_rules! monox_var {
             }
             fn deg_exps(d: &<Self as Mono>::Deg) -> Exp {
                 (0..3).map(|i| d[i] as i64).collect()
+            }
+            fn total_deg_i64(&self) -> Option<i64> {
+                Some(self.total_deg() as i64)
+            }
+            fn mdeg_defect(a: &Self, ea: &Exp, b: &Self, eb: &Exp) -> Option<String> {
+                let (da, db) = (a.deg(), b.deg());
+                let supp: Vec<usize> = (0..ea.len()).filter(|&i| ea[i] != 0).collect();
+                let mut inds: Vec<usize> = da.indices().cloned().collect();
+                inds.sort();
+                if inds != supp || da.ninds() != supp.len() {
+                    return Some(format!("indices = {inds:?}, ninds = {} ; support of the exponent vector is {supp:?}", da.ninds()));
+                }
+                if da.min_index() != supp.first().cloned() || da.max_index() != supp.last().cloned() {
+                    return Some(format!("min_index / max_index = {:?} / {:?} ; support {supp:?}", da.min_index(), da.max_index()));
+                }
+                if da.total() as i64 != ea.iter().sum::<i64>() {
+                    return Some(format!("total = {} ; sum of exponents {}", da.total(), ea.iter().sum::<i64>()));
+                }
+                let leq = ea.iter().zip(eb).all(|(x, y)| x <= y);
+                let geq = ea.iter().zip(eb).all(|(x, y)| x >= y);
+                if da.all_leq(&db) != leq || da.all_geq(&db) != geq {
+                    return Some(format!("all_leq / all_geq = {} / {} ; componentwise comparison gives {leq} / {geq}", da.all_leq(&db), da.all_geq(&db)));
+                }
+                None
             }
         }
     };
@@ -431,6 +470,20 @@ trait Sut: Clone + PartialEq + Send + Sync + 'static {
     /// every single-term constructor of the type applied to (x^e, c), c possibly zero: (api name, result)
     fn single_term_ctors(_e: &Exp, _c: &Self::C) -> Vec<(&'static str, Self)> {
         vec![]
+    }
+    /// `v + c*x^e` through the term-level mutators (`add_pair` + `clean`, ...)
+    fn pair_added(&self, _e: &Exp, _c: &Self::C) -> Vec<(&'static str, Self)> {
+        vec![]
+    }
+    /// `Lc::combine` with the generator map (x, y) -> x + y, i.e. the Laurent product in one variable
+    fn combined(&self, _o: &Self) -> Option<Self> {
+        None
+    }
+    /// term-level observers (`any_term`, `gens`, `is_gen/is_mono`, `as_gen/as_mono`, `sort_terms_by`) against
+    /// the value's own (already judged) term list; the expected support and the "is a single generator
+    /// with coefficient 1" answer come from the reference
+    fn term_obs_defect(&self, _support: &[Exp], _single_gen: Option<&Exp>) -> Option<String> {
+        None
     }
     fn o_is_zero(&self) -> bool;
     fn o_nterms(&self) -> Option<usize> {
@@ -551,6 +604,30 @@ where
             ("Lc::map", PolyBase::from(self.inner().map(|x, c| (x.clone(), f(c))))),
             ("Lc::into_map", PolyBase::from(self.inner().clone().into_map(|x, c| (x, f(&c))))),
         ]
+    }
+    fn term_obs_defect(&self, support: &[Exp], single_gen: Option<&Exp>) -> Option<String> {
+        let lc: &Lc<_, R> = self.inner();
+        let ex = |x: &X| -> Exp { x.exps() };
+        let mut g: Vec<Exp> = lc.gens().map(|x| ex(x)).collect();
+        g.sort();
+        let mut sup = support.to_vec();
+        sup.sort();
+        if g != sup {
+            return Some(format!("gens() = {g:?} ; support is {sup:?}"));
+        }
+        match self.any_term() {
+            None if sup.is_empty() => {}
+            Some((x, c)) if sup.contains(&ex(x)) && lc.coeff(x) == c => {}
+            r => return Some(format!("any_term() = {:?} on a value with support {sup:?}", r.map(|(x, _)| ex(x)))),
+        }
+        if self.is_mono() != single_gen.is_some() || self.as_mono().map(|x| ex(&x)) != single_gen.cloned() {
+            return Some(format!("is_gen / as_gen = {} / {:?} ; expected {:?}", self.is_mono(), self.as_mono().map(|x| ex(&x)), single_gen));
+        }
+        let sorted: Vec<Exp> = self.sort_terms_by(|x, y| x.exps().cmp(&y.exps())).map(|(x, _)| ex(x)).collect();
+        if sorted != sup {
+            return Some(format!("sort_terms_by(ascending) lists {sorted:?} ; expected {sup:?}"));
+        }
+        None
     }
     fn o_is_zero(&self) -> bool {
         num_traits::Zero::is_zero(self)
@@ -681,6 +758,43 @@ where
             ("Lc::filter_gens", self.filter_gens(|x| kk(x)), 1),
             ("Lc::into_filter_gens", self.clone().into_filter_gens(|x| kk(x)), 1),
         ]
+    }
+    fn pair_added(&self, e: &Exp, c: &R) -> Vec<(&'static str, Self)> {
+        let x = Free(e[0] as i32);
+        let mut a = self.clone();
+        a.add_pair((x.clone(), c.clone()));
+        a.clean();
+        let mut b = self.clone();
+        b.add_pair_ref((&x, c));
+        b.clean();
+        vec![("Lc::add_pair + clean", a), ("Lc::add_pair_ref + clean", b)]
+    }
+    fn combined(&self, o: &Self) -> Option<Self> {
+        Some(self.combine(o, |x, y| Free(x.0 + y.0)))
+    }
+    fn term_obs_defect(&self, support: &[Exp], single_gen: Option<&Exp>) -> Option<String> {
+        let lc: &Lc<_, R> = self;
+        let ex = |x: &Free<i32>| -> Exp { vec![x.0 as i64] };
+        let mut g: Vec<Exp> = lc.gens().map(|x| ex(x)).collect();
+        g.sort();
+        let mut sup = support.to_vec();
+        sup.sort();
+        if g != sup {
+            return Some(format!("gens() = {g:?} ; support is {sup:?}"));
+        }
+        match lc.any_term() {
+            None if sup.is_empty() => {}
+            Some((x, c)) if sup.contains(&ex(x)) && lc.coeff(x) == c => {}
+            r => return Some(format!("any_term() = {:?} on a value with support {sup:?}", r.map(|(x, _)| ex(x)))),
+        }
+        if lc.is_gen() != single_gen.is_some() || lc.as_gen().map(|x| ex(&x)) != single_gen.cloned() {
+            return Some(format!("is_gen / as_gen = {} / {:?} ; expected {:?}", lc.is_gen(), lc.as_gen().map(|x| ex(&x)), single_gen));
+        }
+        let sorted: Vec<Exp> = lc.sort_terms_by(|x, y| x.0.cmp(&y.0)).map(|(x, _)| ex(x)).collect();
+        if sorted != sup {
+            return Some(format!("sort_terms_by(ascending) lists {sorted:?} ; expected {sup:?}"));
+        }
+        None
     }
     fn o_is_zero(&self) -> bool {
         num_traits::Zero::is_zero(self)
@@ -826,6 +940,12 @@ impl<'a, P: Sut> Px<'a, P> {
             let w: P = to_lib::<P>(exp);
             if !(*v == w) || *v != w || !(w == *v) {
                 errs.push(format!("is not == to the directly constructed {}", w.show()));
+            }
+            // term-level observers
+            let support: Vec<Exp> = exp.0.keys().cloned().collect();
+            let single = if exp.nterms() == 1 && exp.0.values().next().map(|k| *k == KRef::<P>::one()).unwrap_or(false) { support.first() } else { None };
+            if let Some(d) = v.term_obs_defect(&support, single) {
+                errs.push(d);
             }
             errs
         });
@@ -1225,9 +1345,49 @@ where
                 }
             }
         }
+        // term-level mutators: v + c*x^e for every monomial of the box and every coefficient (0 included)
+        // (`add_pair` / `add_pair_ref` followed by `clean`: the contract stated at their definition)
+        if r.nterms() <= 2 {
+            let mut cs: Vec<KRef<P>> = coeffs.clone();
+            cs.push(KRef::<P>::zero());
+            for k in &r.0.values().map(|k| k.neg()).collect::<Vec<_>>() {
+                if !cs.contains(k) {
+                    cs.push(k.clone());
+                }
+            }
+            for e in &full {
+                for k in &cs {
+                    let exp = r.add(&RP::<KRef<P>>::from_terms([(e.clone(), k.clone())]));
+                    let pargs = || format!("{} + {}*x^{e:?}", r.show(), k.show());
+                    match catch(|| a.0.pair_added(e, &P::C::from_ref(k))) {
+                        Ok(list) => {
+                            for (api, got) in list {
+                                if let Some(v) = px.light("add_pair", api, &pargs, Ok(got), &exp) {
+                                    px.full("add_pair", &pargs, &v, &exp);
+                                }
+                            }
+                        }
+                        Err(p) => px.fail("add_pair", &pargs(), format!("panicked: {p}")),
+                    }
+                }
+            }
+        }
         // special partners, both orders (polynomials of A with at most two terms)
         if r.nterms() > 2 {
             return;
+        }
+        for s in &spec_a {
+            let cargs = || format!("{}|{}", r.show(), s.1.show());
+            match catch(|| a.0.combined(&s.0)) {
+                Ok(None) => {}
+                Ok(Some(got)) => {
+                    let exp = r.mul(&s.1);
+                    if let Some(v) = px.light("combine", "(x,y)->x+y", &cargs, Ok(got), &exp) {
+                        px.full("combine", &cargs, &v, &exp);
+                    }
+                }
+                Err(p) => px.fail("combine", &cargs(), format!("panicked: {p}")),
+            }
         }
         for s in &spec_a {
             for &op in Px::<P>::ops() {
@@ -1469,6 +1629,11 @@ fn mono_layer<X: MonoX>(run: &Run, wide: bool) -> Value {
         if !ok {
             fail("mono", format!("{e:?}"), format!("exps/stored/deg/==one/is_one/is_unit/inv = {r:?}"));
         }
+        match catch(|| x.total_deg_i64()) {
+            Ok(None) => {}
+            Ok(Some(t)) if t == e.iter().sum::<i64>() => {}
+            r => fail("mono", format!("total_deg:{e:?}"), format!("total_deg = {r:?} ; sum of exponents {}", e.iter().sum::<i64>())),
+        }
     }
     // pair tables
     let mut lexm = vec![vec![Ordering::Equal; n]; n];
@@ -1495,11 +1660,18 @@ fn mono_layer<X: MonoX>(run: &Run, wide: bool) -> Value {
                 }
                 Err(p) => fail("order", args(), format!("comparison panicked: {p}")),
             }
+            // observers of the multi-degree
+            tick(C::Ev, 1);
+            match catch(|| X::mdeg_defect(&lib[i], &monos[i], &lib[j], &monos[j])) {
+                Ok(None) => {}
+                Ok(Some(d)) => fail("mdeg", args(), d),
+                Err(p) => fail("mdeg", args(), format!("observer panicked: {p}")),
+            }
             // product
             let e = exp_add(&monos[i], &monos[j]);
             match catch(|| {
                 let p1 = lib[i].clone() * lib[j].clone();
-                let ok = p1.exps() == e && p1.stored_ok() && p1 == X::from_exps(&e) && X::from_exps(&e) == p1;
+                let ok = p1.exps() == e && p1.stored_ok() && p1 == X::from_exps(&e) && X::from_exps(&e) == p1 && X::mdeg_defect(&p1, &e, &p1, &e).is_none() && p1.total_deg_i64().map(|t| t == e.iter().sum::<i64>()).unwrap_or(true);
                 (p1, ok)
             }) {
                 Ok((p, true)) => prod[i][j] = Some(p),
